@@ -219,16 +219,16 @@ fn huge(ctx: &mut Ctx) {
 /// tags in between are (further end tags included).
 fn bodies(ctx: &mut Ctx, arena: &Arena) {
     let maxlen = if ctx.quick() { 3 } else { 5 };
-    ctx.bound("bodies", format!("regions whose body is every sequence of up to {} tags over {{end tag (0,8), string tag (1,13), custom (0x1337,8), module (3,17), custom with size 0, eight zero bytes, a 16-byte custom tag whose payload is an end-tag image}} followed by {{an end tag, a non-end tag, nothing}}; plus 64 KiB regions with an end tag in the middle", maxlen));
+    ctx.bound("bodies", format!("regions whose body is every sequence of up to {} tags over {{end tag (0,8), string tag (1,13), custom (0x1337,8), module (3,17), custom with size 0, eight zero bytes, a 16-byte custom tag whose payload is an end-tag image, two 16-byte custom tags whose payload is the header image of a specified tag}} followed by {{an end tag, a non-end tag, nothing}}; plus 64 KiB regions with an end tag in the middle", maxlen));
     // (type, size); the last two: eight zero bytes (type 0, size 0), and a custom tag of 16 bytes whose payload is an end-tag image
-    let alpha: [(u32, u32); 7] = [(0, 8), (1, 13), (0x1337, 8), (3, 17), (0x1337, 0), (0, 0), (0x4242, 16)];
+    let alpha: [(u32, u32); 9] = [(0, 8), (1, 13), (0x1337, 8), (3, 17), (0x1337, 0), (0, 0), (0x4242, 16), (0x4243, 16), (0x4244, 16)];
     let mut regions: Vec<Vec<u8>> = vec![];
     for len in 0..=maxlen {
-        for code in 0..7usize.pow(len as u32) {
+        for code in 0..9usize.pow(len as u32) {
             for tail in 0..3 {
                 let mut r = vec![0u8; 8];
                 for i in 0..len {
-                    let (t, sz) = alpha[(code / 7usize.pow(i as u32)) % 7];
+                    let (t, sz) = alpha[(code / 9usize.pow(i as u32)) % 9];
                     let o = r.len();
                     r.resize(o + round8(sz as usize).max(8), 0x61);
                     wr32(&mut r, o, t);
@@ -236,6 +236,15 @@ fn bodies(ctx: &mut Ctx, arena: &Arena) {
                     if t == 0x4242 {
                         wr32(&mut r, o + 8, 0);
                         wr32(&mut r, o + 12, 8);
+                    }
+                    // payloads that read like the header of a specified tag: (string, 640) and (memory map, 24)
+                    if t == 0x4243 {
+                        wr32(&mut r, o + 8, 1);
+                        wr32(&mut r, o + 12, 640);
+                    }
+                    if t == 0x4244 {
+                        wr32(&mut r, o + 8, 6);
+                        wr32(&mut r, o + 12, 24);
                     }
                 }
                 match tail {
